@@ -206,10 +206,15 @@ theorem NodeOK.chunk_sum {kf : KF} (hkf : KFOK kf) (b : Base) (h : NodeOK kf b.n
 
 /-! ## well-formed ops -/
 
+/-- with the repair of F20 (`kf.canon`) an op refers to the first separator of the base only if that separator is at
+least as long as the base's prefix -/
+def NoShort (kf : KF) (b : Base) (pos : Nat) : Prop :=
+  kf.canon = true → pos = 0 → ∀ k, b.node.key 0 = some k → b.node.pl ≤ kf.sl k
+
 def OpOK (kf : KF) (b? : Option Base) : Op → Prop
   | .ins _ _ => True
-  | .upd pos _ => ∃ b, b? = some b ∧ pos < b.node.pc
-  | .keep s e sum => ∃ b, b? = some b ∧ s < e ∧ e ≤ b.node.pc ∧ sum = slSum kf (chunkKeys b s e)
+  | .upd pos _ => ∃ b, b? = some b ∧ pos < b.node.pc ∧ NoShort kf b pos
+  | .keep s e sum => ∃ b, b? = some b ∧ s < e ∧ e ≤ b.node.pc ∧ sum = slSum kf (chunkKeys b s e) ∧ NoShort kf b s
 
 def WF (kf : KF) (b? : Option Base) (ops : List Op) : Prop := ∀ op ∈ ops, OpOK kf b? op
 
@@ -268,7 +273,7 @@ theorem denOp_length {kf : KF} {b? : Option Base} {op : Op} (hb : ∀ b, b? = so
   cases op with
   | ins k pn => rfl
   | upd pos pn =>
-    obtain ⟨b, e, h1⟩ := h
+    obtain ⟨b, e, h1, _⟩ := h
     subst e
     have := hb b rfl
     have hp : pos < b.node.items.length := by omega
@@ -292,7 +297,7 @@ theorem replaceOp_spec {kf : KF} {b? : Option Base} (hb : ∀ b, b? = some b →
   cases op with
   | ins k pn => exact ⟨[.ins k pn], rfl, by simp, trivial, rfl⟩
   | upd pos pn =>
-    obtain ⟨b, e, h1⟩ := h
+    obtain ⟨b, e, h1, _⟩ := h
     subst e
     have := hb b rfl
     have hp : pos < b.node.items.length := by omega
